@@ -131,7 +131,7 @@ class Tap:
 
     def _done(self, entry):
         entry.extra['t1'] = self.tick()
-        if entry.netloc == self.provider_netloc and entry.method == 'POST' and entry.path.endswith(('/Set', '/Context')):
+        if entry.netloc == self.provider_netloc and entry.method == 'POST':
             if entry.body and b'OperationHandleRef' in entry.body:
                 self.last_set_entry[threading.get_ident()] = entry
                 cb = self.on_set_done
@@ -466,6 +466,7 @@ class Rig:
             all_msgs = [r['resp']] + [p for v in views.values() for p in v]
             final_states = set()
             subs = list(views.items()) or [(None, [])]
+            emitted = set()
             for netloc, parts in subs:
                 states = [p['state'] for p in parts]
                 problems = im.check_sequence(r['resp']['state'], states, complete)
@@ -475,6 +476,9 @@ class Rig:
                     key = f'automaton.{suffix}.{mode}'
                     if suffix == 'final_mismatch':
                         key += f'.response_{r["resp"]["state"]}'
+                    if (key, text) in emitted:
+                        continue  # the other subscribers saw the same
+                    emitted.add((key, text))
                     ctx.witness(key, text, {'where': where, 'txid': txid, 'request': r['req'], 'response_state': r['resp']['state'],
                                             'report_states': states, 'handler': hl, 'subscriber': netloc, 'mdib_file': self.mdib_file})
                 final_states.update(s for s in [r['resp']['state']] + states if s in im.FINAL)
@@ -809,17 +813,28 @@ class PermDriver:
         ctx, rig = self.ctx, self.rig
         del self.cap[:]
         self.events = []
-        self.need_foreign(n_foreign, rng)
-        foreign = [self.foreign_pool.popleft() for _ in range(n_foreign)]
-        state = {'own': None, 'post': None, 'plan': None, 'error': None}
+        n_fresh = n_foreign if n_foreign <= 3 else 2
+        self.need_foreign(n_foreign - n_fresh, rng)
+        foreign = [self.foreign_pool.popleft() for _ in range(n_foreign - n_fresh)]
+        state = {'own': None, 'post': None, 'plan': None, 'error': None, 'entry': None}
 
         def on_set_done(entry):
             # runs in the consumer's thread: the provider has answered, the client has not seen the response yet
+            state['entry'] = entry
             try:
                 rig.quiesce()  # the worker has emitted everything for this transaction (captured, not delivered)
                 own = list(self.cap)
                 del self.cap[:]
                 state['own'] = own
+                # foreign transactions started AFTER this one (higher ids), their reports overtake the response
+                if n_fresh:
+                    self.tap.on_set_done = None
+                    for k in range(n_fresh):
+                        rig.issue(1, rig.harness_ops[('Activate', ('ok', 'fail')[k % 2], 'direct')], k)
+                    rig.quiesce()
+                    foreign.extend(self.cap)
+                    del self.cap[:]
+                    ctx.count('perm.foreign_parts_with_higher_id', n_fresh)
                 n = len(own)
                 perm = [own[i] for i in order if i < n] + [own[i] for i in range(n) if i not in order]
                 msgs, k = [], 0
@@ -831,6 +846,7 @@ class PermDriver:
                 msgs += perm[k:]
                 pre, post = msgs[:r_pos], msgs[r_pos:]
                 # foreign messages at seeded slots
+                rng.shuffle(foreign)
                 slots_pre = [rng.randrange(len(pre) + 1) for _ in range(len(foreign) // 2 + len(foreign) % 2)] if foreign else []
                 slots_post = [rng.randrange(len(post) + 1) for _ in range(len(foreign) // 2)] if foreign else []
                 f_iter = iter(foreign)
@@ -862,7 +878,7 @@ class PermDriver:
             raise state['error']
         if state['error'] is not None:
             raise state['error']
-        entry = rec['entry']
+        entry = state.get('entry')  # (nested foreign requests of the same thread overwrite the per-thread slot)
         resp = im.parse_response(entry.response or b'') if entry is not None else {'fault': True}
         if resp.get('fault') or rec['future'] is None:
             ctx.count('perm.call_without_future')
@@ -1059,6 +1075,7 @@ def w_perm(ctx: core.Ctx, arg):
                         shapes.append(rig.harness_ops[(kind, outcome, mode)])
         if arg.get('tutorial'):
             shapes += [dict(s) for s in rig.tutorial_ops]
+        case_no = 0
         for spec in shapes:
             n = 3 if spec['mode'] == 'queued' else 1
             for order in itertools.permutations(range(n)):
@@ -1067,7 +1084,8 @@ def w_perm(ctx: core.Ctx, arg):
                         continue
                     for r_pos in range(len(groups) + 1):
                         for rep in range(arg.get('reps', 1)):
-                            n_foreign = rng.choice(foreign_choices)
+                            case_no += 1
+                            n_foreign = FOREIGN_BOUND if case_no % 24 == 7 else rng.choice(foreign_choices)
                             model = drv.run_case(spec, order, groups, r_pos, n_foreign, rng)
                             if model is not None:
                                 ctx.case(('perm', spec['kind'], spec['outcome'], spec['mode'], spec['origin'], order, tuple(groups),
@@ -1130,12 +1148,12 @@ def run(ctx: core.Ctx):
         jobs.append({'w': 'conc', 'i': 100 + i, 'mdib_file': 'mdib_two_mds.xml', 'n_consumers': 4, 'rounds': 2 if q else 6,
                      'per_thread': 15 if q else 30, 'sync': True, 'yield_injection': True, 'direct_only': True})
     jobs.append({'w': 'burst', 'mdib_file': 'mdib_two_mds.xml', 'n_consumers': 3, 'bursts': [5, 14] if q else [5, 11, 12, 20, 30], 'mixed': False})
-    jobs.append({'w': 'burst', 'mdib_file': '70041_MDIB_Final.xml', 'n_consumers': 4, 'bursts': [17] if q else [9, 17, 30], 'mixed': True})
-    jobs.append({'w': 'burst', 'mdib_file': 'mdib_two_mds.xml', 'n_consumers': 4, 'bursts': [13] if q else [13, 16], 'mixed': True,
+    jobs.append({'w': 'burst', 'mdib_file': '70041_MDIB_Final.xml', 'n_consumers': 4, 'bursts': [24] if q else [9, 17, 24, 30], 'mixed': True})
+    jobs.append({'w': 'burst', 'mdib_file': 'mdib_two_mds.xml', 'n_consumers': 4, 'bursts': [13] if q else [13, 16], 'mixed': False,
                  'real_timeout': True})
     kinds = list(OP_CLASSES)
     outcomes = list(OUTCOMES)
-    foreign_choices = [0, 0, 1, 3, 12, FOREIGN_BOUND] if q else [0, 1, 2, 5, 12, 25, FOREIGN_BOUND]
+    foreign_choices = [0, 0, 0, 1, 1, 2, 3, 6, 12] if q else [0, 0, 1, 2, 3, 5, 12, 25]  # + FOREIGN_BOUND in every 24th case
     if q:
         jobs.append({'w': 'perm', 'i': 0, 'mdib_file': 'mdib_two_mds.xml', 'kinds': ['SetString'], 'outcomes': outcomes, 'merged': True,
                      'foreign_choices': foreign_choices})
